@@ -388,6 +388,14 @@ import (
 	"example.com/m/tr"
 )
 
+// LNode refers to itself (directly, through a slice and through a map).
+type LNode struct {
+	V    int
+	Next *LNode
+	Kids []LNode
+	By   map[string]*LNode
+}
+
 // LBox / LPair are generic (see ext.Box).
 type LBox[T any] struct {
 	V T
